@@ -62,11 +62,12 @@ type Contract struct {
 	KeyType  string
 	Checks   []*Clause
 	Decreases *Clause
+	Abstract bool // interface contract without postconditions: calls are abstracted (fresh results), nothing is assumed
 	Iface    bool            // contract of an interface method: every implementation is verified against it
 	Impls    []string        // keys of the implementing methods
 }
 
-var clauseHead = regexp.MustCompile(`^(keys|check|mode|ghost|requires|ensures|modifies|loop|bound|iface|maynil|inline|trusted|panics-if|nosafety|maxpaths|alias|decreases)\b(.*)$`)
+var clauseHead = regexp.MustCompile(`^(abstract|keys|check|mode|ghost|requires|ensures|modifies|loop|bound|iface|maynil|inline|trusted|panics-if|nosafety|maxpaths|alias|decreases)\b(.*)$`)
 var tagRe = regexp.MustCompile(`^\s*\[([^\]]+)\]\s*(.*)$`)
 
 // ParseContractFile parses the //@ lines of one file. pkgPath is the import path of its package.
@@ -223,6 +224,8 @@ func (c *Contract) addClause(head, rest, where string) error {
 			return fmt.Errorf("%s: ghost wants `name type`", where)
 		}
 		c.Ghosts = append(c.Ghosts, Ghost{f[0], f[1]})
+	case "abstract":
+		c.Abstract = true
 	case "keys":
 		c.KeyType = strings.TrimSpace(rest)
 	case "check":
